@@ -442,7 +442,7 @@ __denega(dexpr_t root)
 			break;
 		case DEX_DISJ:
 			/* !(a|b) -> !a & !b */
-			root->type = DEX_DISJ;
+			root->type = DEX_CONJ;
 			break;
 		case DEX_VAL:
 			__nega_kv(root->kv);
